@@ -3,11 +3,12 @@ SPEC = {
     "level": "other",
     "sidecars": ['normalize_url'],
     "functions": ['ural/normalize_url.py:should_strip_fragment', 'ural/normalize_url.py:qsl_sort_key', 'ural/normalize_url.py:should_strip_query_item',
-                  'ural/normalize_url.py:normalize_url'],
-    "function_sidecars": {'ural/normalize_url.py:normalize_url': ["normalize_url_main"]},
+                  'ural/normalize_url.py:normalize_url', 'ural/utils.py:safe_qsl_iter'],
+    "function_sidecars": {'ural/normalize_url.py:normalize_url': ["normalize_url_main"], 'ural/utils.py:safe_qsl_iter': ["utils"]},
     "bounded": ["bcheck.c05"],
     "explanation": (
-        "Deductive extras (all inputs, pyvc): the decision helpers of normalize_url - should_strip_fragment (routing test), qsl_sort_key (total, injective), should_strip_query_item (filter consultation order; no exception escapes, incl. the callable combination entries). "
+        "Deductive extras (all inputs, pyvc): the query splitter safe_qsl_iter (one pair per '&'-separated item, in order; an item is cut at its FIRST '=' and key + '=' + value "
+        "is the item again, a bare name has value None: keys and values untouched); the decision helpers of normalize_url - should_strip_fragment (routing test), qsl_sort_key (total, injective), should_strip_query_item (filter consultation order; no exception escapes, incl. the callable combination entries). "
         "Deciding step BOUNDED: For a pool of URLs (host heuristics x path shapes x query / fragment families, unparseable strings, random grammar URLs) and "
         "option sets (defaults, every single option flipped, everything off, seeded random combinations, quoted / platform_aware), the re-parsed result "
         "is compared component-wise with the parsed (redirection-resolved, cleaned) input: host = input labels minus whole irrelevant labels / leading "
